@@ -746,6 +746,17 @@ func (s *Scanner) tokSEMICOLON() token.Token {
 // set with Init. Token positions are relative to that file
 // and thus relative to the file set.
 func (s *Scanner) Scan() (t types.Token) {
+	if s.unitVal != "" { // number with unit
+		// the unit ends at the current offset (before any white space is skipped)
+		t.Pos = s.file.Pos(s.offset - len(s.unitVal))
+		t.Tok, t.Lit = token.UNIT, s.unitVal
+		s.unitVal = ""
+		if s.mode&NoInsertSemis == 0 {
+			s.insertSemi = true
+		}
+		return
+	}
+
 scanAgain:
 	s.skipWhitespace()
 
@@ -754,13 +765,6 @@ scanAgain:
 
 	// determine token value
 	insertSemi := false
-	if s.unitVal != "" { // number with unit
-		insertSemi = true
-		t.Pos -= token.Pos(len(s.unitVal))
-		t.Tok, t.Lit = token.UNIT, s.unitVal
-		s.unitVal = ""
-		goto done
-	}
 	switch ch := s.ch; {
 	case isLetter(ch):
 		insertSemi = true
@@ -941,7 +945,6 @@ scanAgain:
 		}
 	}
 
-done:
 	if s.mode&NoInsertSemis == 0 {
 		s.insertSemi = insertSemi
 	}
